@@ -334,3 +334,32 @@ def c20(ck):
     consts = {"Full": "FALSE" if ck.quick else "TRUE"}
     gen_and_replay(ck, "GenC20", consts, timeout=1500)
     ck.exhaustive = True
+
+
+@check("C08")
+def c08(ck):
+    ck.rule = ("every loop shape nesting up to MaxNest of 12 tail-position constructs (fn body with leading forms, do, let, "
+               "both if branches, cond, and, or, immediately applied lambda, ->), spread over 1..3 mutually recursive "
+               "functions, and every such shape with ONE of 11 non-tail constructs inserted at any level (controls that "
+               "must grow); the definition layer's tail-call discipline predicts the sign of every depth difference "
+               "between probe calls; real host stack depth (runtime.Callers) at each (depth! n) must agree; long runs "
+               "(10^4..10^6 iterations) of the tail shapes must complete at constant depth")
+    consts = {"MaxNest": 2 if ck.quick else 3, "Iter": 4}
+    r = gen_and_replay_keep(ck, "GenC08", consts, timeout=1500)
+    # long runs: same tail shapes with a large iteration count must stay constant and complete
+    import copy, random
+    rnd = random.Random(ck.seed)
+    tails = [c for c, _ in r if c["tag"] == "tail"]
+    rnd.shuffle(tails)
+    big = []
+    for c in tails[:60 if ck.quick else 400]:
+        n = rnd.choice([1000, 20000] if ck.quick else [1000, 50000, 300000])
+        b = copy.deepcopy(c)
+        b["id"] = "long:%d:%s" % (n, c["id"])
+        b["forms"][-1]["xs"][1]["i"] = n
+        b["allow"]["depths"] = []
+        b["opt"] = {"long_run_constant": "1"}
+        big.append(b)
+    ck.replay(big, timeout=3000)
+    ck.exhaustive = True
+    ck.extra["bounds"] = consts
